@@ -132,7 +132,7 @@ O(id='asn_get_few_bits', props=['C02', 'C04', 'C05'], kind='width', entry='h_get
   proves=['asn_get_few_bits', 'asn_get_undo'], unwind=33, cbmc=['--unwindset', 'asn_get_few_bits:4'],
   bound='every stream state over a 16-octet window, every width (int); no refill callback; recursion depth <= 2', min_props=40, **BD)
 O(id='asn_get_many_bits', props=['C02', 'C04'], kind='bounded', tier='thorough', timeout=900, entry='h_get_many_bits', functions=['asn_get_many_bits'],
-  unwind=6, cbmc=['--unwindset', 'asn_get_few_bits:4'], bound='up to 32 bits per call', min_props=40, **dict(BD, backends=['cvc5', 'sat']))
+  unwind=6, cbmc=['--unwindset', 'asn_get_few_bits:4'], bound='up to 32 bits per call', min_props=40, **dict(BD, backends=['sat', 'cvc5']))
 O(id='asn_put_few_bits', props=['C02', 'C04', 'C07'], kind='width', entry='h_put_few_bits', functions=['asn_put_few_bits'],
   proves=['asn_put_few_bits'], unwind=10, cbmc=['--unwindset', 'asn_put_few_bits:3'],
   bound='every output state (32-octet scratch space), every value and width; callback may fail', min_props=40, **BD)
